@@ -119,14 +119,17 @@ def runJ (c : RCase) (sortedYears : Bool) : List String :=
     match cs.mapM (jpAsset sortedYears) with
     | .error e => [s!"ERR gen {e}"]
     | .ok shs =>
+      (jpSummaries shs.flatten).map (fun l => s!"JSUM {l.year} {l.row} {l.asset} {l.sheet} {l.closeRow}") ++
       shs.flatten.foldl (fun acc sh =>
         acc ++ [s!"JS {sh.name} {match sh.prevRef with | none => "-" | some (n, r) => s!"{n}:{r}"} {sh.closeRow}"] ++
         sh.rows.map (fun r => s!"JR {r.sheet} {r.row} {r.month} {r.day} {r.typ} {so sr r.pAmt} {so sr r.pYen} {so sr r.sAmt} {so sr r.sYen} {sr r.fee}")) []
 
 def showTRow (r : TRow) : String :=
   s!"TR {r.sheet.replace " " "_"} {r.row} {r.asset} {sr r.amt} {sr r.proceeds} {so sr r.cost} {sr r.gain} {b01 r.long} {showDate r.sold} {so showDate r.acquired} {r.evK}/{r.evN} {so toString r.lotK}/{so toString r.lotN}"
+def showJSum (shs : List JSheet) : List String :=
+  (jpSummaries shs).map (fun l => s!"JSUM {l.year} {l.row} {l.asset} {l.sheet} {l.closeRow}")
 def showJ (shs : List JSheet) : List String :=
-  shs.foldl (fun acc sh =>
+  showJSum shs ++ shs.foldl (fun acc sh =>
     acc ++ [s!"JS {sh.name} {match sh.prevRef with | none => "-" | some (n, r) => s!"{n}:{r}"} {sh.closeRow}"] ++
     sh.rows.map (fun r => s!"JR {r.sheet} {r.row} {r.month} {r.day} {r.typ} {so sr r.pAmt} {so sr r.pYen} {so sr r.sAmt} {so sr r.sYen} {sr r.fee}")) []
 
